@@ -23,31 +23,39 @@ def le(labels, be):
 
 def invoke(case, c, operands):
     """Returns dict: name -> list of labels in *little-endian* order (or single-label lists)."""
+    guard = gencommon.OperandLists(operands, alias=case.get("alias", False))
+    try:
+        return _invoke(case, c, guard.lists)
+    finally:
+        guard.check()
+
+
+def _invoke(case, c, operands):
     fn = case["fn"]
     be = case.get("big_endian", False)
     if fn == "add_sub_two_numbers":
-        return {"res": le(A.add_sub_two_numbers(c, list(operands[0]), list(operands[1]), big_endian=be), be)}
+        return {"res": le(A.add_sub_two_numbers(c, operands[0], operands[1], big_endian=be), be)}
     if fn == "add_subtract_with_compare":
-        res, bal = A.add_subtract_with_compare(c, list(operands[0]), list(operands[1]), big_endian=be)
+        res, bal = A.add_subtract_with_compare(c, operands[0], operands[1], big_endian=be)
         return {"res": le(res, be), "borrow": [bal]}
     if fn == "add_sub2":
-        r = A.add_sub2(c, list(operands[0]), big_endian=be)
+        r = A.add_sub2(c, operands[0], big_endian=be)
         return {"res": [r[0]], "borrow": [r[1]]}
     if fn == "add_sub3":
-        r = A.add_sub3(c, list(operands[0]), big_endian=be)
+        r = A.add_sub3(c, operands[0], big_endian=be)
         return {"res": [r[0]], "borrow": [r[1]]}
     if fn == "add_div_mod":
-        d, m = A.add_div_mod(c, list(operands[0]), list(operands[1]), big_endian=be)
+        d, m = A.add_div_mod(c, operands[0], operands[1], big_endian=be)
         return {"div": le(d, be), "mod": le(m, be)}
     if fn == "add_sqrt":
-        return {"res": le(A.add_sqrt(c, list(operands[0]), big_endian=be), be)}
+        return {"res": le(A.add_sqrt(c, operands[0], big_endian=be), be)}
     if fn == "add_equal":
-        return {"res": [A.add_equal(c, list(operands[0]), case["num"])]}
+        return {"res": [A.add_equal(c, operands[0], case["num"])]}
     if fn == "add_plus_one":
         kw = {}
         if case.get("out_len") is not None:
             kw["result_labels"] = [f"z_{i}" for i in range(case["out_len"])]
-        r = GEN.add_plus_one(c, list(operands[0]), add_outputs=case.get("add_outputs", False), big_endian=be, **kw)
+        r = GEN.add_plus_one(c, operands[0], add_outputs=case.get("add_outputs", False), big_endian=be, **kw)
         return {"res": le(r, be)}
     if fn == "add_if_then_else":
         kw = {"result_label": "ite_res"} if case.get("named") else {}
@@ -56,12 +64,12 @@ def invoke(case, c, operands):
     if fn == "add_pairwise_if_then_else":
         n = case["n"]
         kw = {"result_labels": [f"ite_{i}" for i in range(n)]} if case.get("named") else {}
-        r = GEN.add_pairwise_if_then_else(c, list(operands[0]), list(operands[1]), list(operands[2]), add_outputs=case.get("add_outputs", False), **kw)
+        r = GEN.add_pairwise_if_then_else(c, operands[0], operands[1], operands[2], add_outputs=case.get("add_outputs", False), **kw)
         return {"res": list(r)}
     if fn == "add_pairwise_xor":
         n = case["n"]
         kw = {"result_labels": [f"xr_{i}" for i in range(n)]} if case.get("named") else {}
-        r = GEN.add_pairwise_xor(c, list(operands[0]), list(operands[1]), add_outputs=case.get("add_outputs", False), **kw)
+        r = GEN.add_pairwise_xor(c, operands[0], operands[1], add_outputs=case.get("add_outputs", False), **kw)
         return {"res": list(r)}
     raise ValueError(fn)
 
@@ -349,6 +357,17 @@ def make_cases(tier, rnd):
                 cases.append(dict(fn="add_subtract_with_compare", widths=[n, m], big_endian=be, host=rnd.choice(hosts)))
             if (n + m) % 3 == 0:
                 cases.append(dict(fn="add_sub_two_numbers", gen="generate_sub_two_numbers", widths=[n, m], big_endian=bool(n % 2)))
+    for n in range(1, 7):
+        for be in (False, True):
+            cases.append(dict(fn="add_div_mod", widths=[n, n], big_endian=be, host="repeat2", alias=True))
+            cases.append(dict(fn="add_sub_two_numbers", widths=[n, n], big_endian=be, host="repeat2", alias=True))
+            cases.append(dict(fn="add_subtract_with_compare", widths=[n, n], big_endian=be, host="repeat2", alias=True))
+    for ao in (False, True):
+        for n in (1, 2, 3):
+            cases.append(dict(fn="add_pairwise_xor", widths=[n, n], n=n, add_outputs=ao, named=bool(n % 2), host="dup-outputs"))
+            cases.append(dict(fn="add_pairwise_if_then_else", widths=[n, n, n], n=n, add_outputs=ao, named=bool(n % 2), host="dup-outputs"))
+        cases.append(dict(fn="add_if_then_else", widths=[3], add_outputs=ao, named=False, host="dup-outputs"))
+        cases.append(dict(fn="add_plus_one", widths=[3], out_len=3, add_outputs=ao, host="dup-outputs"))
     for w in ([32, 64, 128] if thorough else [32, 128]):
         cases.append(dict(fn="add_sub_two_numbers", widths=[w, w], host="fresh"))
         cases.append(dict(fn="add_subtract_with_compare", widths=[w, w - 5], host="fresh"))
